@@ -136,6 +136,9 @@ func c20One(r *rt.Rec, text string, memo bool, chanSize, bulk int) {
 		if streaming(calls[k-1].Method) {
 			afters = append(afters, -1) // deliver one element, close the channel, return the error late
 		}
+		if memo && streaming(calls[k-1].Method) && calls[k-1].Graph != "" {
+			afters = append(afters, -3) // a write through the memoizer overlaps the failing lookup
+		}
 		if m := calls[k-1].Method; k == 1 || m == "Graph.AddTriples" || m == "Graph.RemoveTriples" {
 			afters = append(afters, -2) // this call and every later one fail (the driver has gone away)
 		}
@@ -145,9 +148,19 @@ func c20One(r *rt.Rec, text string, memo bool, chanSize, bulk int) {
 				plan = fault.Plan{K: k, After: 1, Late: true}
 			} else if after == -2 {
 				plan = fault.Plan{From: k}
+			} else if after == -3 {
+				plan = fault.Plan{K: k, After: 1}
 			}
 			fs, st := mk(plan)
-			desc := fmt.Sprintf("[%s k=%d/%d %s after=%d late=%v from-here-on=%v chan=%d bulk=%d] %s", variant, k, len(calls), calls[k-1].Method, plan.After, plan.Late, plan.From > 0, chanSize, bulk, text)
+			if after == -3 {
+				gname := calls[k-1].Graph
+				fs.SetDuring(func() {
+					if g, err := st.Graph(ctx, gname); err == nil {
+						g.AddTriples(ctx, []*triple.Triple{gen.MustTriple(gen.AbsentNode, gen.MustImm("during"), triple.NewNodeObject(gen.AbsentNode))})
+					}
+				})
+			}
+			desc := fmt.Sprintf("[%s k=%d/%d %s after=%d late=%v from-here-on=%v write-during=%v chan=%d bulk=%d] %s", variant, k, len(calls), calls[k-1].Method, plan.After, plan.Late, plan.From > 0, after == -3, chanSize, bulk, text)
 			r.Begin(desc)
 			r.Eval(1)
 			before := rt.Snapshot()
@@ -221,7 +234,7 @@ func init() {
 	register(&rt.Check{
 		ID:    "C20",
 		Level: "fault_enumeration",
-		Rule: "a corpus of statements that exercises every driver entry point (Exist, each of the eight lookups behind simpleFetch, Triples with clause-level filtering, per-row specialisation, OPTIONAL, Graph resolution in Init, INSERT/DELETE into 1-3 graphs, CONSTRUCT/DECONSTRUCT with and without reification at bulk sizes 1/2/1000, CREATE/DROP, SHOW GRAPHS; thorough adds generated statements) run over a fault-injecting storage.Store/Graph written in the harness; per statement a clean run records its N driver calls, then every position k<=N x mode {fail before any element, fail after 1, after 2 elements, after 1 element with the error returned some time after the channel was closed (lookups), fail on write / Graph / Exist, this and every later call fail (from the first call and from every write)} is executed, directly and with the memoizer stacked in between; " +
+		Rule: "a corpus of statements that exercises every driver entry point (Exist, each of the eight lookups behind simpleFetch, Triples with clause-level filtering, per-row specialisation, OPTIONAL, Graph resolution in Init, INSERT/DELETE into 1-3 graphs, CONSTRUCT/DECONSTRUCT with and without reification at bulk sizes 1/2/1000, CREATE/DROP, SHOW GRAPHS; thorough adds generated statements) run over a fault-injecting storage.Store/Graph written in the harness; per statement a clean run records its N driver calls, then every position k<=N x mode {fail before any element, fail after 1, after 2 elements, after 1 element with the error returned some time after the channel was closed (lookups), fail on write / Graph / Exist, this and every later call fail (from the first call and from every write), a write through the memoizer while the failing lookup is in flight (memoized variant)} is executed, directly and with the memoizer stacked in between; " +
 			"oracle: if the planned fault fired, Execute returns an error (not a table, not (nil,nil)), returns within the watchdog, and no goroutine started for it survives; a fault that did not fire is inconclusive; non-trivial = the fault fired after an earlier successful call or after >=1 delivered element; distinct by (statement, store, k, mode)",
 		Assume: []string{"the injecting wrapper behaves like a well-formed driver: it closes the channel exactly once and then returns the error", "bounded time = the per-case watchdog (all-blocked rule, 120 s hard)"},
 		Floor:  200,
